@@ -124,9 +124,9 @@ public:
         // ~= 1e-307 for the "double" type
         const Scalar near_0 = TypeTraits<Scalar>::min() * Scalar(10);
 
-        m_n = mat.rows();
-        if (m_n != mat.cols())
+        if (mat.rows() != mat.cols())
             throw std::invalid_argument("TridiagEigen: matrix must be square");
+        m_n = mat.rows();
 
         m_main_diag.resize(m_n);
         m_sub_diag.resize(m_n - 1);
